@@ -1,7 +1,17 @@
 import Oracle.Proto
-/-! Oracle suites of property C16 (registered in Oracle/Main.lean through `suites`). -/
+import Oracle.C16Suites
+/-! Oracle suites of property C16 (linked into `oracle-c16`). -/
 namespace Oracle.C16
 
-def suites : List (String × Suite) := []
+def suites : List (String × Suite) := [
+  ("rank", rank), ("rank-spec", rankSpec),
+  ("prio", prio), ("prio-judge", prioJudge),
+  ("paged", paged), ("paged-spec", pagedSpec),
+  ("order", order), ("order-spec", orderSpec),
+  ("syncmap", syncmap), ("syncmap-spec", syncmapSpec),
+  ("bucket", bucket), ("bucket-spec", bucketSpec),
+  ("syncslice", syncslice),
+  ("bitset", bitset), ("bitset-spec", bitsetSpec)
+]
 
 end Oracle.C16
